@@ -446,7 +446,8 @@ def run(ctx, res):
             m["util"].save_cnf(p, c, fvc, sup)
             note("T1-save_cnf", tokenise(p.read_text()) == o[4], ("save_cnf", cls, sup))
             p.unlink()
-            printed.append(o[4])
+            if all(abs(l) < 10 ** 6 for cl in cls for l in cl) and (fvc or 0) < 10 ** 6:
+                printed.append(o[4])   # (a header count of 10^25 would make `range(1, num_vars + 1)` explode)
             res.count(("print", repr(cls), fvc, sup), nontrivial=len(cls) > 0)
         res.sample({"cnf": cases[0][0], "support": cases[0][2], "model_save_cnf": outs[4][:160]})
 
